@@ -198,7 +198,7 @@ Proof. intros H2. unfold do_cwin. destruct (_ >? _); [|exact H2]. eapply Inv2_co
 Lemma do_rel_Inv2 s : Inv2 s -> Inv2 (fst (do_rel s)).
 Proof. intros H2. unfold do_rel. destruct (isSome _); [exact H2|]. eapply Inv2_core; [|exact H2]. reflexivity. Qed.
 Lemma do_enable_Inv2 s : Inv2 s -> Inv2 (fst (do_enable s)).
-Proof. intros H2. eapply Inv2_core; [|exact H2]. reflexivity. Qed.
+Proof. intros H2. unfold do_enable. destruct (isSome _); [exact H2|]. eapply Inv2_core; [|exact H2]. reflexivity. Qed.
 Lemma do_shutdown_Inv2 s : Inv2 s -> Inv2 (fst (do_shutdown s)).
 Proof.
   intros H2. unfold do_shutdown. destruct (_ && _); [|eapply Inv2_core; [|exact H2]; reflexivity].
@@ -394,7 +394,7 @@ Proof.
   - unfold do_win. destruct (_ >? _); exact H.
   - unfold do_cwin. destruct (_ >? _); exact H.
   - unfold do_rel. destruct (isSome _); exact H.
-  - exact H.
+  - unfold do_enable. destruct (isSome _); exact H.
   - unfold do_shutdown. destruct (_ && _); exact H.
 Qed.
 
@@ -404,18 +404,12 @@ Proof.
 Qed.
 
 
-Definition sets_late (s : state) (o : op) : bool :=
-  negb (panicked s) &&
-  match o with
-  | OEnable => isSome (resetErr s) && negb (supportsRSA s)
-  | _ => false
-  end.
+Definition sets_late (s : state) (o : op) : bool := false.
 
 Lemma step_late_eq s o : late (fst (step s o)) = late s || sets_late s o.
 Proof.
-  unfold step, sets_late. destruct (panicked s); [cbn [negb andb]; now rewrite orb_false_r|].
-  cbn [negb andb].
-  destruct o; cbn [fst]; rewrite ?orb_false_r.
+  unfold step, sets_late. rewrite orb_false_r. destruct (panicked s); [reflexivity|].
+  destruct o; cbn [fst].
   - unfold do_write. destruct (writing s); [reflexivity|]. destruct (resetErr s) as [[c r]|].
     + nc_core. cbn [fst]. now rewrite Lnc.
     + destruct (shutdown s); [reflexivity|]. destruct (finishedWriting s); [reflexivity|]. destruct (isNil p); [reflexivity|].
@@ -445,17 +439,15 @@ Proof.
   - unfold do_win. destruct (_ >? _); reflexivity.
   - unfold do_cwin. destruct (_ >? _); reflexivity.
   - unfold do_rel. destruct (isSome _); reflexivity.
-  - reflexivity.
+  - unfold do_enable. destruct (isSome _); reflexivity.
   - unfold do_shutdown. destruct (_ && _); reflexivity.
 Qed.
 
 Lemma step_late_reset s o :
   (late s = true -> resetErr s <> None) -> late (fst (step s o)) = true -> resetErr (fst (step s o)) <> None.
 Proof.
-  intros H HL. rewrite step_late_eq in HL. apply orb_prop in HL. destruct HL as [HL|HL].
-  - apply step_reset. auto.
-  - apply step_reset. unfold sets_late in HL. apply andb_prop in HL. destruct HL as [_ HL].
-    destruct o; try discriminate; destruct (resetErr s); try discriminate; discriminate.
+  intros H HL. rewrite step_late_eq in HL. unfold sets_late in HL. rewrite orb_false_r in HL.
+  apply step_reset. auto.
 Qed.
 
 Lemma run_late_reset s ops :
